@@ -1183,7 +1183,11 @@ LIBRARY = {
     ('ipaddress', 'IPv4Address'): ('class', 'IPv4Address'), ('ipaddress', 'IPv6Address'): ('class', 'IPv6Address'),
     ('ipaddress', 'IPv4Network'): ('class', 'IPv4Network'), ('ipaddress', 'IPv6Network'): ('class', 'IPv6Network'),
     ('itertools', 'count'): ('builtin', 'itertools.count'),
-    ('asyncio', 'get_event_loop'): ('builtin', 'get_event_loop'), ('random', 'randrange'): ('builtin', 'random.randrange'),
+    ('asyncio', 'get_event_loop'): ('builtin', 'get_event_loop'),
+    ('asyncio', 'TimeoutError'): ('exc', 'asyncio.TimeoutError'), ('aiohttp', 'ClientError'): ('exc', 'aiohttp.ClientError'),
+    ('aiohttp', 'ClientConnectionError'): ('exc', 'aiohttp.ClientConnectionError'),
+    ('aiohttp', 'ServerDisconnectedError'): ('exc', 'aiohttp.ServerDisconnectedError'),
+    ('aiohttp', 'ClientPayloadError'): ('exc', 'aiohttp.ClientPayloadError'), ('random', 'randrange'): ('builtin', 'random.randrange'),
 }
 
 
@@ -3131,3 +3135,17 @@ def _jd_copy(ip, recv, args, kwargs, node, fr):
 
 
 FUNCS['math.log2'] = _log
+
+
+
+@builtin('next')
+def _next(ip, args, kwargs, node, fr):
+    v = resolve(ip, args[0])
+    if isinstance(v, VOpaque):
+        return VInt(z3.Int(ip.fresh_name('next')))      # itertools.count(): some fresh integer
+    raise EngineError(f'next() of {v!r}')
+
+
+@builtin('itertools.count')
+def _count(ip, args, kwargs, node, fr):
+    return VOpaque('itertools.count')
